@@ -1,6 +1,8 @@
 package ed25519
 
 import (
+	"io"
+	"strings"
 	"bytes"
 	"fmt"
 	"math/big"
@@ -222,16 +224,31 @@ func mkMsmCase(n int, sp, pp string, rng *rt.Rng) *msmCase {
 }
 
 func runMsm(batch *batchHeap, sc []*big.Int, pts []msmPoint) []byte {
-	fillHeap(batch, sc, pts)
 	var p ge25519.Ge25519
-	multiScalarmultVartime(&p, batch, len(sc))
+	return runMsmInto(&p, batch, sc, pts)
+}
+
+// runMsmInto writes the result into a caller-supplied output point (VerifyBatch reuses one output
+// point for all chunks of a call, so the routine must not depend on what it holds).
+func runMsmInto(p *ge25519.Ge25519, batch *batchHeap, sc []*big.Int, pts []msmPoint) []byte {
+	fillHeap(batch, sc, pts)
+	multiScalarmultVartime(p, batch, len(sc))
 	out := make([]byte, 32)
-	ge25519.Pack(out, &p)
+	ge25519.Pack(out, p)
 	return out
 }
 
+// dirtyPoint is a valid, non-neutral point with reduced coordinates.
+func dirtyPoint(k int64) *ge25519.Ge25519 {
+	var p ge25519.Ge25519
+	if !ge25519.UnpackVartime(&p, ref.Base().Mul(big.NewInt(k)).Encode()) {
+		panic("dirtyPoint: base multiple does not decode")
+	}
+	return &p
+}
+
 func jobC17(c *rt.Ctx) {
-	c.Require("msm/gcd=1", "msm/gcd>1", "msm/all-zero", "reuse", "e2e/no-fallback", "helpers")
+	c.Require("msm/gcd=1", "msm/gcd>1", "msm/all-zero", "reuse", "e2e/no-fallback", "e2e/valid-chunk-after-rejected-chunk", "helpers")
 	sizes := []int{4, 5, 6, 7, 8, 33, 63, 64}
 	sprof := msmScalarProfiles
 	pprof := []string{"honest-distinct", "mixed-order", "all-torsion", "pairs"}
@@ -270,6 +287,14 @@ func jobC17(c *rt.Ctx) {
 				if c.WantSample() && gc == "gcd>1" {
 					c.Sample(map[string]interface{}{"space": "multi-scalar routine", "n": n, "count": 2*n + 1, "scalar_profile": sp, "point_profile": pp, "gcd_class": gc, "expected": ref.Hex(want.Encode()), "observed": ref.Hex(got)})
 				}
+				// the same case into an output point that already holds a non-neutral point
+				var batchD batchHeap
+				if gotD := runMsmInto(dirtyPoint(int64(4+n)), &batchD, sc, pts); !bytes.Equal(gotD, want.Encode()) {
+					c.Violation(fmt.Sprintf("C17 msm %s dirty-output", gc),
+						fmt.Sprintf("multi-scalar multiplication of %d terms (scalars %s, points %s, %s) into an output point holding [%d]B is not the sum of [s_i]P_i", 2*n+1, sp, pp, gc, 4+n),
+						map[string]interface{}{"n": n, "scalar_profile": sp, "point_profile": pp, "gcd_class": gc, "expected": ref.Hex(want.Encode()), "observed": ref.Hex(gotD)})
+				}
+				c.Step(1)
 				if !bytes.Equal(got, want.Encode()) {
 					var scs []string
 					for _, s := range sc {
@@ -295,15 +320,24 @@ func jobC17(c *rt.Ctx) {
 		}
 	}
 	for qi, seq := range seqs {
-		for _, sp := range []string{"hash-like", "even"} {
+		for _, sp0 := range []string{"hash-like", "even", "then-r=0", "then-r=1"} {
 			if !c.Take() {
 				continue
 			}
 			var shared batchHeap
+			var sharedOut ge25519.Ge25519
 			for step, n := range seq {
+				sp := sp0
+				if strings.HasPrefix(sp0, "then-") {
+					// a general first chunk, then the degenerate-randomiser shortcuts on the dirty heap / output
+					sp = "hash-like"
+					if step > 0 {
+						sp = sp0[5:]
+					}
+				}
 				m := mkMsmCase(n, sp, "mixed-order", rt.NewRng(c.Seed, fmt.Sprintf("reuse-%d-%d-%s", qi, step, sp)))
 				sc, pts := m.scalars(), m.points()
-				gotShared := runMsm(&shared, sc, pts)
+				gotShared := runMsmInto(&sharedOut, &shared, sc, pts)
 				var fresh batchHeap
 				gotFresh := runMsm(&fresh, sc, pts)
 				want := msmExpected(sc, pts).Encode()
@@ -318,13 +352,15 @@ func jobC17(c *rt.Ctx) {
 				}
 			}
 			c.Class("reuse")
-			c.Distinct(fmt.Sprintf("reuse %v %s", seq, sp), true)
+			c.Distinct(fmt.Sprintf("reuse %v %s", seq, sp0), true)
 		}
 	}
 	// (3) vartime helpers on boundary pairs vs big.Int
 	jobC17Helpers(c)
 	// (4) end to end with the fallback hook
 	jobC17E2E(c)
+	// (5) valid chunks after rejected chunks of the same call
+	jobC17Mixed(c)
 }
 
 func limbBoundaryValues() []*big.Int {
@@ -519,6 +555,98 @@ func jobC17E2E(c *rt.Ctx) {
 			}
 		}
 	}
+}
+
+// jobC17Mixed: a valid chunk is accepted by the batch equation itself whatever the previous chunk of
+// the same call left behind - in particular after a chunk that was rejected (non-neutral sum in the
+// shared output point, heap in its mid-reduction state).
+func jobC17Mixed(c *rt.Ctx) {
+	type shape struct {
+		n   int
+		bad []int // chunks holding one bad entry
+	}
+	shapes := []shape{{68, []int{0}}, {72, []int{0}}, {128, []int{0}}, {132, []int{0}}, {132, []int{1}}, {200, []int{0}}, {200, []int{1}}, {200, []int{0, 1}}, {200, []int{0, 2}}, {196, []int{0, 1, 2}}}
+	tails := []string{"rng", "zero", "one", "ff"}
+	for si, sh := range shapes {
+		for ti, tail := range tails {
+			for vi, vs := range vAll {
+				if !c.Thorough() && (si+ti)%len(vAll) != vi {
+					continue
+				}
+				if !c.Take() {
+					continue
+				}
+				entries := append([]triple{}, fillers(vs, sh.n)...)
+				lastBad := 0
+				wantOff := map[int]bool{}
+				badAt := map[int]bool{}
+				for _, ch := range sh.bad {
+					p := 64*ch + 3 + ch
+					entries[p].sig = append([]byte{}, entries[p].sig...)
+					entries[p].sig[40] ^= 2
+					badAt[p] = true
+					wantOff[64*ch] = true
+					if ch > lastBad {
+						lastBad = ch
+					}
+				}
+				// randomisers: pseudo-random for every chunk up to the last bad one, then the tail pattern
+				rd := &tailReader{r: rt.NewRng(c.Seed, fmt.Sprintf("mixed-%d", si)), head: 1024 * (lastBad + 1), tail: tail}
+				var offs []int
+				verifOnFallback = func(off, bs int) { offs = append(offs, off) }
+				all, valid, err, pv := implBatchReader(entries, vs, false, rd)
+				verifOnFallback = nil
+				c.Step(1)
+				c.Class("e2e/valid-chunk-after-rejected-chunk")
+				c.Distinct(fmt.Sprintf("mixed %d %s %v", si, tail, vs), true)
+				d := map[string]interface{}{"n": sh.n, "bad_chunks": fmt.Sprint(sh.bad), "tail_entropy": tail, "variant": vs.String(), "fallback_offsets": fmt.Sprint(offs), "all": all, "err": fmt.Sprint(err), "panic": fmt.Sprint(pv)}
+				bad := pv != nil || err != nil || all || len(valid) != sh.n
+				if !bad {
+					for i, v := range valid {
+						if v == badAt[i] {
+							bad = true
+						}
+					}
+				}
+				if bad {
+					c.Violation("C17 e2e mixed batch verdicts", fmt.Sprintf("batch of %d with one bad entry in chunks %v (tail entropy %s): wrong verdicts", sh.n, sh.bad, tail), d)
+					continue
+				}
+				for _, o := range offs {
+					if !wantOff[o] {
+						c.Violation("C17 e2e fallback used", fmt.Sprintf("batch of %d with one bad entry in chunks %v (tail entropy %s): the all-valid chunk at offset %d fell back to per-signature verification", sh.n, sh.bad, tail, o), d)
+						break
+					}
+				}
+			}
+		}
+	}
+}
+
+// tailReader: head bytes from r, then a fixed pattern ("rng": keep r; "zero"; "one": every 128-bit
+// randomiser equal to 1; "ff").
+type tailReader struct {
+	r    io.Reader
+	head int
+	tail string
+	pos  int
+}
+
+func (t *tailReader) Read(p []byte) (int, error) {
+	for i := range p {
+		var b [1]byte
+		switch {
+		case t.pos < t.head || t.tail == "rng":
+			t.r.Read(b[:])
+		case t.tail == "one" && t.pos%16 == 0:
+			b[0] = 1
+		case t.tail == "ff":
+			b[0] = 0xff
+		}
+		p[i] = b[0]
+		t.pos++
+	}
+	return len(p), nil
 }
 
 type constReader byte
